@@ -9,6 +9,7 @@ INVARIANT InvDeviationsAreReal
 INVARIANT InvJsonStrModuloKnown
 INVARIANT InvJsonStrDeviationsReal
 INVARIANT InvOnlyFloatDiffers
+INVARIANT InvRepairedFamiliesQuoted
 INVARIANT InvTimestampSafe
 INVARIANT InvIntRoundTrip
 INVARIANT InvYamlFloat
